@@ -105,11 +105,22 @@ def run(ctx):
     mas = roles.inherent(facts, METHOD, "as_str")
     ctx.touch(mfs); ctx.touch(mas)
     fwd = {}
+    lookups = set()
     for tok in list(METHODS) + ["get", "FOO", "GETX"]:
         g, ps = PRS.eval_str_fn(facts, mfs.id, tok)
         vs = set()
         for p in ps:
             v = PRS.unwrap_ok(p.ret())
+            # a path whose outcome hinges on the unknown result of a table lookup (`TABLE.iter().find(..)`) says nothing definite about this token
+            looked_up = False
+            for bb_, c_ in p.conds:
+                if c_ and c_[0] == "variant":
+                    h_ = absint.head_call(c_[3]) if c_[3] else None
+                    if h_ is not None and re.search(r"Iterator>?::(find|find_map|position|next|max_by\w*|min_by\w*)(::<|$)|::(get|binary_search\w*)$", h_[1]):
+                        looked_up = looked_up or c_[2] in ("Some", "Ok")
+            if looked_up:
+                lookups.add(tok)
+                continue
             if v is None:
                 vs.add("ERR")
             elif v[0] == "agg" and v[1] == METHOD:
@@ -123,7 +134,23 @@ def run(ctx):
                 vs.add("?")
         fwd[tok] = vs
     want = {k: {v} for k, v in METHODS.items()}
-    ok = all(fwd.get(k) == v for k, v in want.items())
+    via_table = False
+    if lookups:
+        # the parser finds the variant by searching a table with `candidate.as_str() == token`: then it is the inverse of as_str by
+        # construction (as_str is checked below, variant by variant); what has to hold is that the search compares exactly as_str(candidate)
+        # with the input, case-sensitively, over a table of Method values
+        gi = inline.inlined(facts, mfs.id, stop=lambda d: facts.fns[d].rec.get("local") and (facts.fns[d].file != mfs.file or d == mas.id), extern_ok=Q.std_small)
+        bodies = [gi] + [g2 for k2, g2 in facts.local_fns.items() if k2.startswith(mfs.id + "::{closure")]
+        for gi in bodies:
+          for bb_, t_ in gi.calls():
+              if re.search(r"<str as std::cmp::PartialEq>::eq$|PartialEq.*for str>::eq$|<impl std::cmp::PartialEq for str>::eq$|PartialEq<&.*>>::eq$", call_name(t_) + " " + (t_.get("res_name") or "")) or (t_.get("callee") == "std::cmp::PartialEq::eq" and "str" in (t_.get("res_name") or call_name(t_))):
+                  os_ = [gi.origin(a_) for a_ in t_["args"]]
+                  has_as_str = any(any(x[0] == "call" and x[1] == mas.id for x in origin_walk(o_)) for o_ in os_)
+                  if has_as_str:
+                      via_table = True
+        ctx.ob("C02.1", "%s|lookup-through-as_str" % mfs.id, "the standard methods are recognised by comparing the token with as_str() of the candidates (case-sensitive string equality): the parser is the inverse of as_str by construction",
+               via_table, "%s:%d" % (mfs.file, mfs.line))
+    ok = all((fwd.get(k) == v) or (k in lookups and via_table and fwd.get(k) <= (v | {"NonStandard(token)", "ERR"})) for k, v in want.items())
     ctx.ob("C02.1", "%s|literal-to-variant" % mfs.id, "the nine standard method tokens map to their variants (case-sensitively)", ok, "%s:%d" % (mfs.file, mfs.line), None if ok else str(fwd))
     ext = [fwd.get(k) for k in ("get", "FOO", "GETX")]
     ext = [v - {"ERR"} if v else v for v in ext]      # (a token that is not ASCII is an error)
